@@ -79,6 +79,7 @@ type vfConn struct {
 	afterFail int // transport Write calls begun after a fault
 	closed  int
 	onWrite func(p []byte) // scripted peers react to what was written
+	pipe    net.Conn       // native replay of TLS paths: bytes go to a real peer instead of the script
 }
 
 func vfNewConn(in []byte) *vfConn {
@@ -97,6 +98,13 @@ func (c *vfConn) faultErr() error {
 
 func (c *vfConn) Read(p []byte) (int, error) {
 	vfYield() // the transport may block here for arbitrarily long
+	if c.pipe != nil {
+		n, err := c.pipe.Read(p)
+		c.lmu.Lock()
+		c.ops = append(c.ops, vfOp{kind: vfOpRead, req: n})
+		c.lmu.Unlock()
+		return n, err
+	}
 	c.nreads++
 	if c.rerr != nil {
 		return 0, c.rerr
@@ -184,6 +192,9 @@ func (c *vfConn) Write(p []byte) (int, error) {
 		return 0, vfErrInjected
 	}
 	c.ops = append(c.ops, vfOp{kind: vfOpWrite, data: append([]byte(nil), p...), req: len(p)})
+	if c.pipe != nil {
+		return c.pipe.Write(p)
+	}
 	if c.onWrite != nil {
 		c.onWrite(p)
 	}
@@ -196,6 +207,9 @@ func (c *vfConn) Close() error {
 	defer c.lmu.Unlock()
 	c.closed++
 	c.ops = append(c.ops, vfOp{kind: vfOpClose})
+	if c.pipe != nil {
+		c.pipe.Close()
+	}
 	return nil
 }
 
